@@ -103,7 +103,7 @@ func genManaged() {
 	as, ok := body[1].(*ast.AssignStmt)
 	if !ok || len(as.Lhs) != 1 || len(as.Rhs) != 1 || exprString(fsetW, as.Lhs[0]) != "err" ||
 		exprString(fsetW, as.Rhs[0]) != "m.runWorker(name, fn)" {
-		die("managed: runServiceWorker: expected `err := m.runWorker(name, fn)`, got %s", stmtString(fsetW, body[1]))
+		die("managed: runServiceWorker: expected `err := m.runWorker(name, fn)`, got %s", managedStmtString(fsetW, body[1]))
 	}
 	sw, ok := body[2].(*ast.SwitchStmt)
 	if !ok || sw.Tag != nil || sw.Init != nil {
@@ -196,7 +196,7 @@ func genManaged() {
 		if isHook(st) {
 			continue
 		}
-		s := stmtString(fsetE, st)
+		s := managedStmtString(fsetE, st)
 		switch {
 		case s == "reportingLock.Lock()":
 			seq = append(seq, "lock")
@@ -217,7 +217,7 @@ func genManaged() {
 				switch x := is.Body.List[0].(type) {
 				case *ast.SendStmt:
 					if exprString(fsetE, x.Chan) != "errorReportingChannel" || exprString(fsetE, x.Value) != "me" {
-						die("managed: Report: unrecognised send %s", stmtString(fsetE, x))
+						die("managed: Report: unrecognised send %s", managedStmtString(fsetE, x))
 					}
 					send = "send"
 				case *ast.SelectStmt:
@@ -240,7 +240,7 @@ func genManaged() {
 					}
 					send = "select-default"
 				default:
-					die("managed: Report: unrecognised statement in the channel branch: %s", stmtString(fsetE, x))
+					die("managed: Report: unrecognised statement in the channel branch: %s", managedStmtString(fsetE, x))
 				}
 				seq = append(seq, "send")
 			case "reportToStdErr":
@@ -269,7 +269,7 @@ func genManaged() {
 		if !ok || is.Init == nil {
 			return true
 		}
-		if stmtString(fsetR, is.Init) == "panicValue := recover()" {
+		if managedStmtString(fsetR, is.Init) == "panicValue := recover()" {
 			nRec++
 			if exprString(fsetR, is.Cond) != "panicValue != nil" || is.Else != nil {
 				die("managed: handle: unrecognised recover test")
@@ -307,7 +307,7 @@ func genManaged() {
 		}(); isHookR {
 			continue
 		}
-		switch s := stmtString(fsetR, st); {
+		switch s := managedStmtString(fsetR, st); {
 		case s == `me := module.NewPanicError("api request", "custom", panicValue)`:
 			apiSeq = append(apiSeq, "new")
 		case s == "me.Report()":
@@ -330,7 +330,7 @@ func genManaged() {
 	write("Managed.lean", sb.String())
 }
 
-func stmtString(fset *token.FileSet, n ast.Node) string {
+func managedStmtString(fset *token.FileSet, n ast.Node) string {
 	var sb strings.Builder
 	if err := printer.Fprint(&sb, fset, n); err != nil {
 		die("print stmt: %v", err)
